@@ -85,12 +85,19 @@ def determinism(res, tier):
     base = gridlab.tokamak_spec("lsn", fpol="linear", pressure="parab")
     other = gridlab.tokamak_spec("cdn", fpol="const", options={"orthogonal": False})
     circ = gridlab.circular_spec()
-    specs = [base, dict(base, history=[base]), dict(base, history=[other]), dict(base, history=[circ, other])]
+    # a double null: its closed-field-line y-group consists of two regions, so the order in which groups and regions are visited matters
+    dn = gridlab.tokamak_spec("cdn", fpol="const")
+    specs = [base, dict(base, history=[base]), dict(base, history=[other]), dict(base, history=[circ, other]),
+             dn, dict(dn, history=[dn]), dict(dn, history=[dn, dn]), dict(dn, history=[base, circ])]
+    groups = [(0, [1, 2, 3]), (4, [5, 6, 7])]
     if tier == "thorough":
         b2 = gridlab.tokamak_spec("cdn", fpol="linear", options={"orthogonal": False})
         specs += [b2, dict(b2, history=[b2]), dict(b2, history=[base])]
+        groups.append((8, [9, 10]))
+        b3 = gridlab.tokamak_spec("ldn", fpol="linear")
+        specs += [b3, dict(b3, history=[b3, b3]), dict(b3, history=[dn])]
+        groups.append((11, [12, 13]))
     out = gridlab.get(specs, cache=True)
-    groups = [(0, [1, 2, 3])] + ([(4, [5, 6])] if tier == "thorough" else [])
     for ref, others in groups:
         a = out[ref]
         for k in others:
